@@ -70,6 +70,31 @@ CHECKS = {
             "dis.stack_effect of the matching CPython is ground truth; operands >= 2^30 excluded (C int overflow "
             "in the reference)",
             "DESIGN.md §4 C15"),
+    "C06": ("Hypothesis-generated headers (every release magic x 32-bit flag word x 32/64-bit fields) with marker "
+            "payloads + real py_compile output in all PEP 552 modes; oracle = format model validated against py_compile",
+            "load_module's 7-tuple and the -F header text show exactly the fields the version's format stores, "
+            "and the code object is read right after the header, on generated headers for 1.0-3.13 and PyPy magics.",
+            "PEP 552 / importlib define the header; flag words with unknown bits may be rejected",
+            "DESIGN.md §4 C06"),
+    "C14": ("Hypothesis G-VALUE plain values evaluated inside host workers 3.8-3.13: round-trip differential "
+            "xdis.marsh <-> the host's built-in marshal (dumps, loads, load)",
+            "marshal.loads(xdis.marsh.dumps(v)) == v and xdis.marsh.loads/load(marshal.dumps(v, 0|1)) == v by kind "
+            "and value on generated values, on all six hosts.",
+            "host marshal is ground truth; NaN compared by NaN-ness (text floats)",
+            "DESIGN.md §4 C14"),
+    "C16": ("generated programs compiled on each host 3.8-3.13; round trip native -> codeType2Portable -> to_native "
+            "compared attribute by attribute (+ co_lines(), co_positions()); replace() model check",
+            "Every code object of generated programs survives the conversion unchanged on all six hosts, the "
+            "portable class matches the host version and replace() copies without mutating.",
+            "attribute-wise equality (code.__eq__ ignores line tables on some versions)",
+            "DESIGN.md §4 C16"),
+    "C19": ("Hypothesis-generated {offset: line} mappings (gaps around 127/255/256, decreasing lines) frozen by "
+            "Code2/Code3/Code38/Code310; round-trip oracle through xdis's decoder and the matching CPython's "
+            "dis.findlinestarts on a native code object carrying the frozen table",
+            "freeze() output decodes back to the mapping with xdis and with CPython 2.7/3.6-3.10 on generated "
+            "mappings incl. continuation entries.",
+            "mappings start at offset 0 with distinct consecutive lines; Code2/Code3 only non-decreasing lines",
+            "DESIGN.md §4 C19"),
 }
 
 NOT_YET = {}
